@@ -63,7 +63,22 @@ func (w *faultWriter) fail() {
 	}
 }
 
+// c12Deep is a count-down template: more than a hundred nested calls, a write at every level.
+func c12Deep(n int) gen.ProgCase {
+	nref := &ref.Expr{Op: "ref", Name: "n"}
+	deep := ref.Template{Name: "deep", Params: []ref.ParamDecl{{Name: "n"}}, Body: []ref.Cmd{
+		{K: "print", Expr: nref}, {K: "text", Text: ","},
+		{K: "if", Branches: []ref.Branch{{Cond: &ref.Expr{Op: ">", Args: []*ref.Expr{nref, {Op: "int", I: 0}}}, Body: []ref.Cmd{
+			{K: "call", Call: &ref.Call{Target: "c12.deep", Params: []ref.Param{{Key: "n", Value: &ref.Expr{Op: "-", Args: []*ref.Expr{nref, {Op: "int", I: 1}}}}}}},
+			{K: "text", Text: ";"}}}}}}}
+	return gen.ProgCase{Prog: ref.Program{Files: []ref.File{{Name: "deep.soy", Namespace: "c12", Templates: []ref.Template{deep}}}},
+		Entry: "c12.deep", Data: map[string]ref.Value{"n": ref.I(int64(n))}}
+}
+
 func genC12(t *rapid.T) gen.ProgCase {
+	if rapid.IntRange(0, 149).Draw(t, "deep") == 77 {
+		return c12Deep(rapid.IntRange(90, 160).Draw(t, "depth"))
+	}
 	g := &gen.G{T: t, P: gen.Profile{Unicode: true, HTMLChars: true, Directives: true}}
 	return gen.GenProgram(g, gen.ProgOpts{MaxTemplates: 4, MaxDepth: 3, MaxCmds: 4, ExprDepth: 2, PosWeight: 2, CallWeight: 8, MinTemplates: 1, MsgWeight: 8})
 }
@@ -98,7 +113,7 @@ func checkC12(c gen.ProgCase) Verdict {
 	names, srcs := gen.Sources(&c.Prog)
 	want := ref.Render(&c.Prog, c.Entry, c.Data, c.IJ, c.HasIJ)
 	if want.Status != ref.OK {
-		return excluded("program does not render fault-free (" + want.Status.String() + ")")
+		return excluded("program does not render fault-free (" + want.Status.String() + ": " + firstWords(want.Msg, 4) + ")")
 	}
 	cb, err, pn := compileBundle(names, srcs, c.Prog.Globals)
 	if err != nil || pn != nil {
@@ -159,7 +174,15 @@ func checkC12(c gen.ProgCase) Verdict {
 	defer func() { c12ViaTofu = false }()
 	for _, via := range entries {
 		c12ViaTofu = via
-		for k := 0; k < W; k++ {
+		kstep := 1
+		if W > 256 {
+			kstep = 3 // (very many writes: every third one, starting at a different one for each entry point)
+		}
+		k0 := 0
+		if kstep > 1 {
+			k0 = b2i(via)
+		}
+		for k := k0; k < W; k += kstep {
 			for _, sticky := range []bool{true, false} {
 				renders++
 				if err := check(&faultWriter{failCall: k, capacity: -1, sticky: sticky}, fmt.Sprintf("write call %d of %d fails (sticky=%v)", k, W, sticky)); err != nil {
